@@ -37,8 +37,11 @@ REGISTRY = dict(
           "and torch variable for all exclude/include sets; set_parameters(get_parameters()) changes nothing. Refuted witnesses keep the pre-fix behaviour (F7) as regression inputs; "
           "F15 (tuple-key dict made save() raise) and F18 (str-subclass keys restored as plain str) were found by this check / its review and repaired in /repo (regression inputs). "
           "Known findings reproduced from fixed corpus inputs: F16 dict-attribute-with-reserved-serialized-key-not-restored, F19 net-arch-list-of-dict-rewritten-on-load. "
+          "Build round 5: load() as a state transformer in the code's order of effects (Model.LoadFlow: frame condition over custom_objects / kwargs / env bookkeeping, n_envs and "
+          "_last_obs, load raises iff a modelled guard fails), set_parameters in full (Model.SetParams: exact_match=True either raises or has installed every object; the names are "
+          "compared only AFTER the objects were loaded), load_replay_buffer decision. Finding load-env-argument-overridden-by-stored-env (Refuted/C09_load_env.v, replayed from the corpus). "
           "Tie: fragment translator + correspondence on random value trees + six algorithms saved and loaded through str / pathlib / BytesIO."),
-    note=("Trusted: Coq 8.16.1 kernel (vm_compute, no native_compute), translate/py2coq.py + specs/saveload.py, harness/c09.py, Python/numpy/torch/cloudpickle/zipfile. "
+    note=("Trusted: Coq 8.16.1 kernel (vm_compute, no native_compute), translate/py2coq.py + specs/saveload.py + specs/loadflow.py, harness/c09.py, harness/c09_loadflow.py, Python/numpy/torch/cloudpickle/zipfile. "
           "Modelled, not verified: cloudpickle, th.save/th.load, zipfile (identity on opaque blobs; exercised by the whole-model runs), _setup_model (a frame condition in the "
           "theorems; exercised). F7 was repaired in /repo (d2e3a0f): the positive theorem is proved, the old rule's counterexamples are kept in Refuted/ and corpus/C09.jsonl. "
           "All C09 theorems are closed under the global context."),
@@ -61,6 +64,9 @@ From SB3V Require Import Model.JsonCodec Model.SaveLoad.
 Import ListNotations.
 Local Open Scope Z_scope.
 """
+from harness import c09_loadflow as lf  # noqa: E402  (build round 5: load() flow, set_parameters decision, load_replay_buffer decision)
+
+HEADER = HEADER.replace("Local Open Scope Z_scope.", lf.HEADER_EXTRA + "Local Open Scope Z_scope.")
 
 
 class Color(enum.IntEnum):
@@ -954,8 +960,9 @@ def run_buffer(case):
     return {"problems": problems, "expr": "true", "filled": filled, "wrapped": wrapped}
 
 
-RUN = {"codec": run_codec, "model": run_model, "buffer": run_buffer}
-COMPARE = {"codec": compare_codec, "model": compare_model, "buffer": lambda c, im, mv: list(im["problems"])}
+RUN = {"codec": run_codec, "model": run_model, "buffer": run_buffer, "loadflow": lf.run_loadflow, "setparams": lf.run_setparams, "rbload": lf.run_rbload}
+COMPARE = {"codec": compare_codec, "model": compare_model, "buffer": lambda c, im, mv: list(im["problems"]),
+           "loadflow": lf.compare_loadflow, "setparams": lf.compare_setparams, "rbload": lf.compare_rbload}
 
 
 def gen_case(rng, i):
@@ -1000,7 +1007,7 @@ def tree_stats(spec, acc):
 
 
 def main():
-    chk = Check("C09", groups=["saveload"])
+    chk = Check("C09", groups=["saveload", "loadflow"])
     chk.build_props()
     from harness import c18_branchcov
 
@@ -1019,6 +1026,14 @@ def main():
         cases.append({"kind": "model", "config": "random", "spec": gen_model_spec(chk.rng), "id": f"model-random-{j}"})
     for j in range(16 if chk.tier == "quick" else 200):
         cases.append({"kind": "buffer", "spec": gen_buffer_spec(chk.rng), "id": f"buffer-{j}"})
+    # build round 5: load() as a state transformer (env / force_reset / custom_objects / kwargs / tampered archives), set_parameters in full
+    # (all six algorithms in every run), load_replay_buffer decision
+    for j in range(40 if chk.tier == "quick" else 400):
+        cases.append({"kind": "loadflow", "spec": lf.gen_loadflow_spec(chk.rng), "id": f"loadflow-{j}"})
+    for j in range(18 if chk.tier == "quick" else 180):
+        cases.append({"kind": "setparams", "spec": lf.gen_setparams_spec(chk.rng, lf.ALGOS[j % 6]), "id": f"setparams-{j}"})
+    for j in range(12 if chk.tier == "quick" else 100):
+        cases.append({"kind": "rbload", "spec": lf.gen_rbload_spec(chk.rng), "id": f"rbload-{j}"})
     if chk.tier == "thorough":
         for s in range(1, 9):
             for nm in names:
@@ -1026,7 +1041,8 @@ def main():
     for i in range(n_cases):
         cases.append(gen_case(chk.rng, i))
     impls, results = run_cases(chk, cases)
-    distinct, hist, reported = set(), {"codec": 0, "model": 0, "buffer": 0, "node_kinds": {}, "models": [], "buffers": []}, set()
+    distinct, hist, reported = set(), {"codec": 0, "model": 0, "buffer": 0, "loadflow": 0, "setparams": 0, "rbload": 0, "node_kinds": {}, "models": [], "buffers": [],
+                                       "loadflow_outcomes": {}, "setparams_outcomes": {}, "rbload_outcomes": {}}, set()
     queue = []
     for c, im, probs in zip(cases, impls, results):
         hist[c["kind"]] += 1
@@ -1035,6 +1051,17 @@ def main():
                 tree_stats(spec, hist["node_kinds"])
             if "plain" in im and any(k in json.dumps(c["items"]) for k in ('"tuple"', '"np_float64"', '"int",')) and any(not p for p in im["plain"]) and any(im["plain"]):
                 distinct.add(json.dumps(c["items"], sort_keys=True))
+        elif c["kind"] in ("loadflow", "setparams", "rbload"):
+            distinct.add(json.dumps(c["spec"], sort_keys=True))
+            if c["kind"] == "loadflow" and "obs" in im:
+                key = f"env={c['spec']['env']}:{'raises-guard-%d' % im['obs']['code'] if im['obs']['code'] else 'loaded'}"
+            elif c["kind"] == "setparams" and "err" in im:
+                key = f"{c['spec']['algo']}:exact={c['spec']['exact']}:{['installed', 'invalid-name', 'strict-error', 'names-mismatch'][im['err']] if im['err'] < 4 else 'other'}"
+            elif c["kind"] == "rbload" and "flags" in im:
+                key = f"her={c['spec']['her']}:truncate={c['spec']['truncate']}:{'raises' if im['rb_raised'] else 'loaded'}"
+            else:
+                key = "implementation-raised"
+            hist[c["kind"] + "_outcomes"][key] = hist[c["kind"] + "_outcomes"].get(key, 0) + 1
         elif c["kind"] == "buffer":
             hist["buffers"].append(f"{c['spec']['buffer']}:n_envs={c['spec']['n_envs']}:size={c['spec']['buffer_size']}:steps={c['spec']['steps']}:{c['spec']['path']}"
                                    + (":wrapped" if im.get("wrapped") else ""))
@@ -1043,7 +1070,7 @@ def main():
             hist["models"].append(c["config"] if c["config"] != "random" else c["spec"]["algo"] + ":net_arch=" + json.dumps(c["spec"].get("net_arch")))
             distinct.add(json.dumps(c.get("spec") or c["config"], sort_keys=True) + str(c.get("seed")))
         for sig, msg in probs:
-            is_oracle = sig.startswith("oracle-") or sig in (RESERVED_KEY_SIG, LEGACY_SIG)
+            is_oracle = sig.startswith("oracle-") or sig in (RESERVED_KEY_SIG, LEGACY_SIG, lf.ENV_SIG)
             full = sig if is_oracle else "model-correspondence-" + sig
             if full in reported:
                 continue
@@ -1052,7 +1079,7 @@ def main():
     # statement-level oracle failures (concrete failing inputs) are reported first; model-only disagreements go into the remaining slots
     emitted = 0
     for q_sig, q_msg, q_replay, q_found in sorted(queue, key=lambda q: not q[3]):
-        if q_sig not in {RESERVED_KEY_SIG, LEGACY_SIG}:
+        if q_sig not in {RESERVED_KEY_SIG, LEGACY_SIG, lf.ENV_SIG}:
             if emitted >= 4:
                 continue
             emitted += 1
@@ -1066,7 +1093,9 @@ def main():
                             "parts, activation_fn, optimizer_kwargs, n_critics, share_features_extractor, normalize_images, gSDE with sde_sample_freq, tuple train_freq, gradient_steps=-1, constant "
                             "vs callable learning_rate / clip_range, target_kl, stats_window_size, seed None vs int, device cpu/auto; before / after learn; all path kinds) + corpus (net_arch=[] for "
                             "every algorithm, an archive in the pre-1.8 net_arch=[dict] format); any exception from construct/learn/save/load is a violation (see input_distribution.models). Non-trivial = (codec) a dictionary that contains a "
-                            "tuple / np.float64 / int key and has both plain and pickled attributes; every whole-model run. distinct = distinct case description")
+                            "tuple / np.float64 / int key and has both plain and pickled attributes; every whole-model run. distinct = distinct case description; "
+                            "round 5: 40 load-flow cases (algorithm x saved n_envs x env none / equal / other n_envs / other spaces x force_reset x custom_objects subset x kwargs subset x include env x tampered "
+                            "archive), 18 set_parameters cases (six algorithms, exact_match, dropped objects, invalid name, missing / unexpected key), 12 load_replay_buffer cases - all non-trivial")
     chk.notes["input_distribution"] = hist
     chk.notes["corpus_cases"] = n_corpus
     chk.add_samples([cases[i] for i in (0, 1, n_corpus + len(names))][:3])
@@ -1075,6 +1104,9 @@ def main():
         "floats are tags in the model (k/8 in the runs); strings are short ASCII words; dictionaries never mix keys that Python identifies (1, True, 1.0)",
         "schedules and other callables are compared by their values at progress 1, 0.5, 0; objects with a __dict__ attribute by attribute; spaces with ==",
         "attributes in the effective exclusion set ((exclude + _excluded_save_params()) - include, plus the top-level names of state dicts / torch variables) are not compared",
+        "load flow (round 5): attribute values are opaque tags; kwargs['policy_kwargs'] != data['policy_kwargs'] is typed structural equality; check_for_correct_spaces / _wrap_env are inputs "
+        "(accept / reject, num_envs after wrapping); the set _setup_model re-creates is harness/c09_loadflow.CREATED (compared by value); torch's load_state_dict is modelled as copy-matching-keys-then-complain; "
+        "shape mismatches and optimizer-group mismatches are outside the model",
         "replay buffers saved on their own (ReplayBuffer, optimize_memory_usage, DictReplayBuffer, HerReplayBuffer with and without copy_info_dict) are compared attribute by attribute except the documented `env`",
     ]
     if cov is not None:
@@ -1085,7 +1117,7 @@ def main():
 def replay(path):
     d = json.load(open(path))
     case = d["replay"]["case"] if "replay" in d else d
-    chk = Check("C09", groups=["saveload"])
+    chk = Check("C09", groups=["saveload", "loadflow"])
     impls, results = run_cases(chk, [case])
     print(json.dumps({"problems": results[0]}, indent=1))
     return 1 if results[0] else 0
